@@ -466,6 +466,15 @@ pub fn build_catalogue() -> Vec<Subject> {
         LinkedList<LinkedList<u8>> [mem, len]; VecDeque<VecDeque<u16>> [mem, len]; BinaryHeap<(u8, u8)> [mem, len]; BinaryHeap<Vec<u8>> [mem, len]; Vec<Compact<u8>> [mem, len]; Result<(), ()> [mem]; Option<()> [mem]; Option<Vec<()>> [mem];
         [[u8; 0]; 3] [mem]; [u8; 1] [mem]; [u16; 1] [mem]; Box<[u8; 0]> [mem]; [f32; 5] [mem]; [i8; 6] [mem]; [u64; 2] [mem]; [i128; 2] [mem]; GenericS<EnumData> [mem]; Vec<GenericE<u32>> [mem, len]; Vec<WithCompact> [mem, len]; Vec<WithSkip> [mem, len]; BTreeMap<u8, Tr4> [mem, len];
         Box<Box<u16>> [mem]; Rc<Rc<Vec<u8>>> [mem]; Option<Option<Option<u8>>> [mem]; Vec<Result<u8, u16>> [mem, len]; (Option<u8>, Result<u16, u8>, OptionBool) [mem]; Vec<[u8; 3]> [mem, len]; Vec<[u16; 2]> [mem, len]; VecDeque<[u8; 3]> [mem, len];
+        // systematic block: 10 element kinds x 8 constructors (duplicates of entries above left out)
+        LinkedList<bool> [mem, len]; LinkedList<[u8; 2]> [mem, len]; LinkedList<Option<u8>> [mem, len]; LinkedList<(u8, u16)> [mem, len]; LinkedList<Unit1> [mem, len]; LinkedList<Compact<u32>> [mem, len]; LinkedList<NonZeroU16> [mem, len]; LinkedList<Vec<u8>> [mem, len];
+        BTreeSet<bool> [mem, len]; BTreeSet<[u8; 2]> [mem, len]; BTreeSet<Option<u8>> [mem, len]; BTreeSet<(u8, u16)> [mem, len]; BTreeSet<Unit1> [mem, len]; BTreeSet<Compact<u32>> [mem, len]; BTreeSet<NonZeroU16> [mem, len];
+        BinaryHeap<u16> [mem, len]; BinaryHeap<bool> [mem, len]; BinaryHeap<[u8; 2]> [mem, len]; BinaryHeap<Option<u8>> [mem, len]; BinaryHeap<(u8, u16)> [mem, len]; BinaryHeap<Unit1> [mem, len]; BinaryHeap<Compact<u32>> [mem, len]; BinaryHeap<NonZeroU16> [mem, len];
+        Arc<Vec<u16>> [mem]; Arc<Vec<bool>> [mem]; Arc<Vec<String>> [mem]; Arc<Vec<[u8; 2]>> [mem]; Arc<Vec<Option<u8>>> [mem]; Arc<Vec<(u8, u16)>> [mem]; Arc<Vec<Unit1>> [mem]; Arc<Vec<Compact<u32>>> [mem]; Arc<Vec<NonZeroU16>> [mem]; Arc<Vec<Vec<u8>>> [mem];
+        [u16; 2] [mem]; [[u8; 2]; 2] [mem]; [Option<u8>; 2] [mem]; [(u8, u16); 2] [mem]; [Unit1; 2] [mem];
+        Box<[u16; 3]> [mem]; Box<[bool; 3]> [mem]; Box<[String; 3]> [mem]; Box<[[u8; 2]; 3]> [mem]; Box<[Option<u8>; 3]> [mem]; Box<[(u8, u16); 3]> [mem]; Box<[Compact<u32>; 3]> [mem]; Box<[NonZeroU16; 3]> [mem]; Box<[Vec<u8>; 3]> [mem];
+        BTreeMap<u16, u8> [mem, len]; BTreeMap<bool, u8> [mem, len]; BTreeMap<String, u8> [mem, len]; BTreeMap<[u8; 2], u8> [mem, len]; BTreeMap<Option<u8>, u8> [mem, len]; BTreeMap<(u8, u16), u8> [mem, len]; BTreeMap<Unit1, u8> [mem, len]; BTreeMap<Compact<u32>, u8> [mem, len]; BTreeMap<NonZeroU16, u8> [mem, len]; BTreeMap<Vec<u8>, u8> [mem, len];
+        Result<u16, Vec<u16>> [mem]; Result<bool, Vec<bool>> [mem]; Result<String, Vec<String>> [mem]; Result<[u8; 2], Vec<[u8; 2]>> [mem]; Result<Option<u8>, Vec<Option<u8>>> [mem]; Result<(u8, u16), Vec<(u8, u16)>> [mem]; Result<Unit1, Vec<Unit1>> [mem]; Result<Compact<u32>, Vec<Compact<u32>>> [mem]; Result<NonZeroU16, Vec<NonZeroU16>> [mem]; Result<Vec<u8>, Vec<Vec<u8>>> [mem];
         // nestings
         Vec<EnumData> [mem, len]; Option<Box<StructNamed>> [mem]; BTreeMap<u16, EnumIdx> [mem, len]; (Vec<u8>, Vec<u16>) [mem, len];
         Vec<Vec<Vec<u32>>> [mem, len]; Vec<Tree> [mem, len]; Box<Tr2> [mem]; Vec<Tr1> [mem, len]; LinkedList<Vec<u16>> [mem, len];
